@@ -1,7 +1,11 @@
 /* C15: the five tracked allocation wrappers relate the tracker table (static malloc_rec) to the
  * allocator at runtime level >= DEBUG_MEM (units *.on.*) and leave it untouched below (units *.off:
  * empty frame).  Compiled with DEBUG 5.  Callees memrec_add_var / memrec_rem_var / memrec_chg_var are
- * represented by the contracts proved in table.c.  Contracts: contracts/mem.h. */
+ * represented by the contracts proved in table.c.  Contracts: contracts/mem.h.
+ * spifmem_realloc's callees spifmem_malloc / spifmem_free are inlined (real bodies): cbmc 6.11 rejects
+ * __CPROVER_was_freed in the ensures clause of a REPLACED contract ("requires ptr to always exist in the
+ * contract's frees clause" fails even on a 10-line example), so spifmem_free's contract cannot be used
+ * at a call site. */
 
 /*@unit
 name: malloc.off
@@ -9,12 +13,14 @@ define: U_MALLOC, U_LEVEL_OFF
 debug: 5
 src: mem.c
 enforce: spifmem_malloc
+replace: memrec_add_var
 backend: sat
 timeout: 200
+mem: 8
 */
 /*@unit
 name: malloc.on.shape
-define: U_MALLOC, MEM_ENF_MALLOC, U_LEVEL_ON, MEM_PART=1
+define: U_MALLOC, U_LEVEL_ON, MEM_PART=1
 debug: 5
 src: mem.c
 enforce: spifmem_malloc
@@ -25,7 +31,7 @@ mem: 14
 */
 /*@unit
 name: malloc.on.records
-define: U_MALLOC, MEM_ENF_MALLOC, U_LEVEL_ON, MEM_PART=2
+define: U_MALLOC, U_LEVEL_ON, MEM_PART=2
 debug: 5
 src: mem.c
 enforce: spifmem_malloc
@@ -36,11 +42,253 @@ mem: 14
 */
 /*@unit
 name: malloc.on.nodup
-define: U_MALLOC, MEM_ENF_MALLOC, U_LEVEL_ON, MEM_PART=3
+define: U_MALLOC, U_LEVEL_ON, MEM_PART=3
 debug: 5
 src: mem.c
 enforce: spifmem_malloc
 replace: memrec_add_var
+backend: sat
+timeout: 280
+mem: 14
+*/
+/*@unit
+name: calloc.off
+define: U_CALLOC, U_LEVEL_OFF
+debug: 5
+src: mem.c
+enforce: spifmem_calloc
+replace: memrec_add_var
+backend: z3,sat
+timeout: 200
+mem: 8
+*/
+/*@unit
+name: calloc.on.shape
+define: U_CALLOC, U_LEVEL_ON, MEM_PART=1
+debug: 5
+src: mem.c
+enforce: spifmem_calloc
+replace: memrec_add_var
+backend: z3,sat
+timeout: 280
+mem: 14
+*/
+/*@unit
+name: calloc.on.records
+define: U_CALLOC, U_LEVEL_ON, MEM_PART=2
+debug: 5
+src: mem.c
+enforce: spifmem_calloc
+replace: memrec_add_var
+backend: z3,sat
+timeout: 280
+mem: 14
+*/
+/*@unit
+name: calloc.on.nodup
+define: U_CALLOC, U_LEVEL_ON, MEM_PART=3
+debug: 5
+src: mem.c
+enforce: spifmem_calloc
+replace: memrec_add_var
+backend: z3,sat
+timeout: 280
+mem: 14
+*/
+/*@unit
+name: free.off
+define: U_FREE, U_LEVEL_OFF
+debug: 5
+src: mem.c
+enforce: spifmem_free
+replace: memrec_rem_var
+backend: sat
+timeout: 200
+mem: 8
+*/
+/*@unit
+name: free.on.shape
+define: U_FREE, U_LEVEL_ON, MEM_PART=1
+debug: 5
+src: mem.c
+enforce: spifmem_free
+replace: memrec_rem_var
+backend: sat
+timeout: 280
+mem: 14
+*/
+/*@unit
+name: free.on.records
+define: U_FREE, U_LEVEL_ON, MEM_PART=2
+debug: 5
+src: mem.c
+enforce: spifmem_free
+replace: memrec_rem_var
+backend: sat
+timeout: 280
+mem: 14
+*/
+/*@unit
+name: free.on.nodup
+define: U_FREE, U_LEVEL_ON, MEM_PART=3
+debug: 5
+src: mem.c
+enforce: spifmem_free
+replace: memrec_rem_var
+backend: sat
+timeout: 280
+mem: 14
+*/
+/*@unit
+name: realloc.off
+define: U_REALLOC, U_LEVEL_OFF
+debug: 5
+src: mem.c
+enforce: spifmem_realloc
+replace: memrec_add_var, memrec_rem_var, memrec_chg_var
+backend: sat
+timeout: 200
+mem: 8
+*/
+/*@unit
+name: realloc.null.on.shape
+define: U_REALLOC, U_RB_NULL, U_LEVEL_ON, MEM_PART=1, VERIF_MEMHASH_REALLOC_ELEM_T=spifmem_ptr_t
+debug: 5
+src: mem.c
+enforce: spifmem_realloc
+replace: memrec_add_var, memrec_rem_var, memrec_chg_var
+backend: sat
+timeout: 280
+mem: 14
+*/
+/*@unit
+name: realloc.null.on.records
+define: U_REALLOC, U_RB_NULL, U_LEVEL_ON, MEM_PART=2, VERIF_MEMHASH_REALLOC_ELEM_T=spifmem_ptr_t
+debug: 5
+src: mem.c
+enforce: spifmem_realloc
+replace: memrec_add_var, memrec_rem_var, memrec_chg_var
+backend: sat
+timeout: 280
+mem: 14
+*/
+/*@unit
+name: realloc.null.on.nodup
+define: U_REALLOC, U_RB_NULL, U_LEVEL_ON, MEM_PART=3, VERIF_MEMHASH_REALLOC_ELEM_T=spifmem_ptr_t
+debug: 5
+src: mem.c
+enforce: spifmem_realloc
+replace: memrec_add_var, memrec_rem_var, memrec_chg_var
+backend: sat
+timeout: 280
+mem: 14
+*/
+/*@unit
+name: realloc.zero.on.shape
+define: U_REALLOC, U_RB_ZERO, U_LEVEL_ON, MEM_PART=1, VERIF_MEMHASH_REALLOC_ELEM_T=spifmem_ptr_t
+debug: 5
+src: mem.c
+enforce: spifmem_realloc
+replace: memrec_add_var, memrec_rem_var, memrec_chg_var
+backend: sat
+timeout: 280
+mem: 14
+*/
+/*@unit
+name: realloc.zero.on.records
+define: U_REALLOC, U_RB_ZERO, U_LEVEL_ON, MEM_PART=2, VERIF_MEMHASH_REALLOC_ELEM_T=spifmem_ptr_t
+debug: 5
+src: mem.c
+enforce: spifmem_realloc
+replace: memrec_add_var, memrec_rem_var, memrec_chg_var
+backend: sat
+timeout: 280
+mem: 14
+*/
+/*@unit
+name: realloc.zero.on.nodup
+define: U_REALLOC, U_RB_ZERO, U_LEVEL_ON, MEM_PART=3, VERIF_MEMHASH_REALLOC_ELEM_T=spifmem_ptr_t
+debug: 5
+src: mem.c
+enforce: spifmem_realloc
+replace: memrec_add_var, memrec_rem_var, memrec_chg_var
+backend: sat
+timeout: 280
+mem: 14
+*/
+/*@unit
+name: realloc.move.on.shape
+define: U_REALLOC, U_RB_MOVE, U_LEVEL_ON, MEM_PART=1, VERIF_MEMHASH_REALLOC_ELEM_T=spifmem_ptr_t
+debug: 5
+src: mem.c
+enforce: spifmem_realloc
+replace: memrec_add_var, memrec_rem_var, memrec_chg_var
+backend: sat
+timeout: 280
+mem: 14
+*/
+/*@unit
+name: realloc.move.on.records
+define: U_REALLOC, U_RB_MOVE, U_LEVEL_ON, MEM_PART=2, VERIF_MEMHASH_REALLOC_ELEM_T=spifmem_ptr_t
+debug: 5
+src: mem.c
+enforce: spifmem_realloc
+replace: memrec_add_var, memrec_rem_var, memrec_chg_var
+backend: sat
+timeout: 280
+mem: 14
+*/
+/*@unit
+name: realloc.move.on.nodup
+define: U_REALLOC, U_RB_MOVE, U_LEVEL_ON, MEM_PART=3, VERIF_MEMHASH_REALLOC_ELEM_T=spifmem_ptr_t
+debug: 5
+src: mem.c
+enforce: spifmem_realloc
+replace: memrec_add_var, memrec_rem_var, memrec_chg_var
+backend: sat
+timeout: 280
+mem: 14
+*/
+/*@unit
+name: strdup.off
+define: U_STRDUP, U_LEVEL_OFF, VERIF_OWN_STRLEN, VERIF_MEMHASH_STRLEN_GHOST
+debug: 5
+src: mem.c
+enforce: spifmem_strdup
+replace: spifmem_malloc
+backend: sat
+timeout: 200
+mem: 8
+*/
+/*@unit
+name: strdup.on.shape
+define: U_STRDUP, U_LEVEL_ON, MEM_PART=1, VERIF_OWN_STRLEN, VERIF_MEMHASH_STRLEN_GHOST
+debug: 5
+src: mem.c
+enforce: spifmem_strdup
+replace: spifmem_malloc
+backend: sat
+timeout: 280
+mem: 14
+*/
+/*@unit
+name: strdup.on.records
+define: U_STRDUP, U_LEVEL_ON, MEM_PART=2, VERIF_OWN_STRLEN, VERIF_MEMHASH_STRLEN_GHOST
+debug: 5
+src: mem.c
+enforce: spifmem_strdup
+replace: spifmem_malloc
+backend: sat
+timeout: 280
+mem: 14
+*/
+/*@unit
+name: strdup.on.nodup
+define: U_STRDUP, U_LEVEL_ON, MEM_PART=3, VERIF_OWN_STRLEN, VERIF_MEMHASH_STRLEN_GHOST
+debug: 5
+src: mem.c
+enforce: spifmem_strdup
+replace: spifmem_malloc
 backend: sat
 timeout: 280
 mem: 14
